@@ -37,6 +37,7 @@ def run(model, res, tier):
     res.rule('R3', 'an error raised or returned by a called function becomes the value of the call, unchanged')
     res.rule('R4', 'trapping functions: truth tables over every error singleton and every other tag')
     res.rule('R5', 'no cache or shared state on the operator / call paths')
+    res.rule('R6', 'functions that bail out on an error item end in that very error object - the trapping functions recognise errors by identity (shared with C11.R1)')
     res.assumptions += ['date converters summarised on date-time input (C13)', 'host functions raise or return error objects they obtained from the library (A2)']
     res.trusted += ['hxsa abstract interpreter and builtin models', 'CPython ast']
     acts = roles.binary_actions(g)
@@ -45,6 +46,8 @@ def run(model, res, tier):
     _r2(model, res, c, g, opaque)
     _r3(model, res, c, g, opaque)
     _r4(model, res, c, opaque)
+    from . import c11
+    H.borrow(res, 'R6', 'aggregates with an error item', lambda tmp: c11._r1(model, tmp))
     keys = []
     for kind in ('arith', 'logic', 'concat', 'uminus'):
         m, f = acts[kind]
